@@ -5,7 +5,7 @@
 cd "$(dirname "$0")/.." || exit 2
 [ -x lean/.lake/build/bin/drv ] || ./setup.sh >/dev/null 2>&1
 props=$(python3 -c "import json;print(' '.join(c['property_id'] for c in json.load(open('MANIFEST.json'))['checks']))")
-ids=${@:-$(ls seeded | grep -v MATRIX)}
+ids=${@:-$(ls seeded | grep "^C[0-9]")}
 for id in $ids; do
   scratch=$(mktemp -d /var/tmp/bbmx.XXXXXX)
   rsync -a --exclude .git --exclude '*.egg-info' /repo/ $scratch/
